@@ -308,6 +308,12 @@ POSITION_CASES = [
     ('from [{a = 1}]\nselect {x = f"{zz}"}\n', "2:16"),
     ('from [{a = 1}]\nselect {x = f"{zz}:\\t\\"q\\"\\t\\u{41}"}\n', "2:16"),
     ('from [{a = 1}]\nderive {label = f"{a}-{zz}\\t\\t"}\n', "2:24"),
+    # an `{` that is never closed, in the last string of the file (with and without a final newline) and as the last line (round-6 seed C13-11)
+    ('from t\nselect f"abc{b.c.d.e"', "2:21"),
+    ('from t\nselect f"abc{b.c.d.e"\n', "2:21"),
+    # a number beyond the range of f64 behind multi-byte text: the error is the lexer's, located in characters (round-6 seed C13-12)
+    ('from t\nfilter name == "Zoë ÅÄÖ"\nderive z = 1e999\n', "3:13"),
+    ('# 売上の集計\nfrom sales\nderive {big = 2.5e310, small = 1}\n', "3:16"),
 ]
 
 
